@@ -467,10 +467,11 @@ class MinErrorFlow():
         !!! warning "Warning"
             Call the `solve` method first.
         """
+        # A cached solution (e.g. the first-phase solution of the few-flow-values variant) is only served by a solved model
+        self._check_is_solved()
+
         if self._solution is not None:
             return self._solution
-        
-        self._check_is_solved()
 
         edge_sol_dict = self.solver.get_values(self.edge_vars)
         for edge in edge_sol_dict.keys():
